@@ -2550,9 +2550,17 @@ void updateBaseUnitCount(const ModelPtr &model,
                          double &multiplier,
                          const std::string &uName,
                          double uExp, double logMult,
-                         int direction)
+                         int direction,
+                         std::vector<std::string> &path)
 {
     if (model->hasUnits(uName)) {
+        // Units that are defined in terms of themselves have been reported
+        // when the units were validated: do not follow the cycle.
+        if (std::find(path.begin(), path.end(), uName) != path.end()) {
+            return;
+        }
+        path.push_back(uName);
+
         UnitsPtr u = model->units(uName);
         if (u->isBaseUnit()) {
             if (unitMap.find(uName) == unitMap.end()) {
@@ -2571,7 +2579,7 @@ void updateBaseUnitCount(const ModelPtr &model,
                 u->unitAttributes(i, ref, pre, exp, expMult, id);
                 mult = std::log10(expMult);
                 if (!isStandardUnitName(ref)) {
-                    updateBaseUnitCount(model, unitMap, multiplier, ref, exp * uExp, logMult + mult * uExp + convertPrefixToInt(pre) * uExp, direction);
+                    updateBaseUnitCount(model, unitMap, multiplier, ref, exp * uExp, logMult + mult * uExp + convertPrefixToInt(pre) * uExp, direction, path);
                 } else {
                     for (const auto &iter : standardUnitsList.at(ref)) {
                         unitMap.at(iter.first) += direction * (iter.second * exp * uExp);
@@ -2580,12 +2588,26 @@ void updateBaseUnitCount(const ModelPtr &model,
                 }
             }
         }
+
+        path.pop_back();
     } else if (isStandardUnitName(uName)) {
         for (const auto &iter : standardUnitsList.at(uName)) {
             unitMap.at(iter.first) += direction * (iter.second * uExp);
         }
         multiplier += direction * (logMult + standardMultiplierList.at(uName));
     }
+}
+
+void updateBaseUnitCount(const ModelPtr &model,
+                         std::map<std::string, double> &unitMap,
+                         double &multiplier,
+                         const std::string &uName,
+                         double uExp, double logMult,
+                         int direction)
+{
+    std::vector<std::string> path;
+
+    updateBaseUnitCount(model, unitMap, multiplier, uName, uExp, logMult, direction, path);
 }
 
 void Validator::ValidatorImpl::checkUniqueResetOrders(const ModelPtr &model)
